@@ -15,6 +15,7 @@ def rank_spec(r, c, n):
 
 class C11(Check):
     pid = 'C11'
+    validate = True
     anchors = [('src/fast_ticc/matrix_compression.py', 'compress_matrix'),
                ('src/fast_ticc/matrix_compression.py', 'reinflate_matrix'),
                ('src/fast_ticc/matrix_compression.py', '_full_matrix_size'),
@@ -75,9 +76,10 @@ class C11(Check):
             cfgs.append(Config('roundtrip_n%d' % n, self.roundtrip, {'n': n}))
         cfgs.append(Config('index_lemma', self.index_lemma, {}))
         for n in ([1, 2, 3, 5, 8] if tier == 'quick' else range(1, 25)):
-            cfgs.append(Config('index_triu_n%d' % n, self.index_triu, {'n': n}))
+            cfgs.append(Config('index_triu_n%d' % n, self.index_triu, {'n': n}, witness_every=3))
         for (N, W) in self._nw(tier):
-            cfgs.append(Config('classes_N%d_W%d' % (N, W), self.classes, {'N': N, 'W': W}, max_fanout=256))
+            cfgs.append(Config('classes_N%d_W%d' % (N, W), self.classes, {'N': N, 'W': W}, max_fanout=256,
+                               witness_every=5))
             cfgs.append(Config('cover_N%d_W%d' % (N, W), self.cover, {'N': N, 'W': W}, max_fanout=256))
         return cfgs
 
@@ -157,6 +159,8 @@ class C11(Check):
         col = c.int('c', 0, n - 1)
         c.assume(I(r) <= I(col))
         idx = uv._compressed_index.__wrapped__(r, col, n)
+        c.notes.update({'kind': 'index', 'n': n})
+        c.outputs['index'] = idx
         rows, cols = mc._upper_triangle_indices.__wrapped__(n)
         rows, cols = list(rows), list(cols)
         L = n * (n + 1) // 2
@@ -179,6 +183,8 @@ class C11(Check):
         if not ok:
             return
         pos = list(pos)
+        c.notes.update({'kind': 'classes', 'N': N, 'W': W})
+        c.outputs['positions'] = [[p_[0], p_[1]] for p_ in pos]
         f = [I(len(pos)) == W - I(b)]
         for (Rr, Cc) in pos:
             f.append(z3.And(I(Rr) >= 0, I(Rr) <= I(Cc), I(Cc) < n))
